@@ -7,6 +7,7 @@ CONSTANTS
   WriteLens = {0, 2}
   MaxWrites = 2
   Grants = {1, 3}
+  MaxCredit = 12
   Mwbs = {0}
   Ccs = {0, 1}
   Conns = {0, 1}
